@@ -76,6 +76,38 @@ def mulDekker (cb : Nat) : List Node := [
   ⟨.add, [12, 19], 0⟩ ] -- 20: xyl
 def mulDekkerOuts : List Nat := [2, 20]
 
+/-- fpa.mul_dekker(x, y, scale=False, fix_overflow=True):  overflow = |xh*yh| > largest;
+xyh = select(overflow, x*y, xyh); xyl = select(overflow, 0, xyl) -/
+def mulDekkerFix (cb lb zb : Nat) : List Node := [
+  ⟨.input, [], 1⟩,      -- 0: y
+  ⟨.const, [], cb⟩,     -- 1: C
+  ⟨.mul, [0, 1], 0⟩,    -- 2: gy
+  ⟨.sub, [2, 0], 0⟩,    -- 3
+  ⟨.sub, [2, 3], 0⟩,    -- 4: yh
+  ⟨.input, [], 0⟩,      -- 5: x
+  ⟨.mul, [1, 5], 0⟩,    -- 6: gx
+  ⟨.sub, [6, 5], 0⟩,    -- 7
+  ⟨.sub, [6, 7], 0⟩,    -- 8: xh
+  ⟨.mul, [4, 8], 0⟩,    -- 9: yh*xh
+  ⟨.abs, [9], 0⟩,       -- 10
+  ⟨.const, [], lb⟩,     -- 11: largest
+  ⟨.gt, [10, 11], 0⟩,   -- 12: overflow
+  ⟨.mul, [0, 5], 0⟩,    -- 13: y*x
+  ⟨.select, [12, 13, 13], 0⟩,  -- 14: xyh
+  ⟨.const, [], zb⟩,     -- 15: 0
+  ⟨.sub, [5, 8], 0⟩,    -- 16: xl
+  ⟨.sub, [0, 4], 0⟩,    -- 17: yl
+  ⟨.mul, [16, 17], 0⟩,  -- 18: xl*yl
+  ⟨.mul, [17, 8], 0⟩,   -- 19: yl*xh
+  ⟨.neg, [13], 0⟩,      -- 20
+  ⟨.add, [9, 20], 0⟩,   -- 21: t1
+  ⟨.add, [19, 21], 0⟩,  -- 22: t2
+  ⟨.mul, [16, 4], 0⟩,   -- 23: xl*yh
+  ⟨.add, [22, 23], 0⟩,  -- 24: t3
+  ⟨.add, [18, 24], 0⟩,  -- 25: xyl
+  ⟨.select, [12, 15, 25], 0⟩ ] -- 26
+def mulDekkerFixOuts : List Nat := [14, 26]
+
 /-- utils.multiply_dekker -/
 def mulDekkerU (cb : Nat) : List Node := [
   ⟨.input, [], 1⟩,      -- 0: y
